@@ -144,6 +144,14 @@ func applyDamage(src []byte, d *Damage) []byte {
 		out := append([]byte{}, src[:off]...)
 		out = append(out, d.Text...)
 		return append(out, src[off:]...)
+	case "random":
+		// the stored file is replaced by Len pseudo-random bytes derived from Off (a lost file whose blocks were reused)
+		rr := common.NewRng(uint64(d.Off) + 77)
+		out := make([]byte, d.Len)
+		for i := range out {
+			out[i] = byte(rr.Intn(256))
+		}
+		return out
 	case "repeat":
 		// insert Text repeated Len times (deep nesting, long chains, many blank lines)
 		out := append([]byte{}, src[:off]...)
@@ -156,7 +164,9 @@ func applyDamage(src []byte, d *Damage) []byte {
 func randomDamage(r *common.Rng, src []byte) Damage {
 	cands := interestingOffsets(src)
 	off := pickOffset(r, src, cands)
-	switch r.Intn(14) {
+	switch r.Intn(15) {
+	case 14:
+		return Damage{Kind: "random", Off: r.Intn(1 << 30), Len: []int{0, 1, 2, 7, 64, 700, 5000}[r.Intn(7)]}
 	case 0, 1, 2:
 		return Damage{Kind: "truncate", Off: off}
 	case 3:
